@@ -60,7 +60,7 @@ class Check(c01.Check):
                 rate = rng.choice([None, None, 'kr', 'ir', 'tr', 'ar'])
                 size = rng.choice([1, 1, 1, 2, 3, 4])
                 vals = [rng.choice([0, 1, 2, -1, 0.5, 0.25, 440, 7]) for _ in range(size)]
-                sig.append([f'p{k}', rate, vals if size > 1 else vals[0]])
+                sig.append([f'p{k}' if rng.random() < 0.9 or any(x[0] == 'gate' for x in sig) else 'gate', rate, vals if size > 1 else vals[0]])
             sigs.append(sig)
         # few names, many slots (array defaults beyond 255 slots), and many names
         sigs.append([['big', rng.choice([None, 'kr', 'ir']), [k % 7 for k in range(rng.randint(256, 420))]], ['q', 'ir', 0.5]])
@@ -107,20 +107,22 @@ class Check(c01.Check):
                 seen.add((name, ctor))
                 out.append({'what': f'{name}.{ctor}(…, {pname}={kind}, …): the definition was compiled to bytes with the unit fed by the invalid value',
                             'signature': f'c02:invalid-accepted:{name}', 'case': {'class': name, 'ctor': ctor, 'arg': k, 'name': pname, 'value': kind}})
-        # units whose first input must run at their own rate, given the other rate: must be rejected
+        # rate constraints of every unit class: each constructor argument given a signal of the other rate;
+        # the forms the reference lists as rejected (because of the rate) must still be rejected
         import json as _json
-        srref = _json.loads((common.VERIF / 'harness/c02_srfirst_ref.json').read_text())
-        sr, err = common.run_impl('c01', 'srfirst_probe', {'mode': 'nrt', 'classes': sorted(srref)}, timeout=900)
-        if sr is None:
-            self.notes.append('first-input-rate probe failed: ' + err[-300:])
+        rref = {tuple(x) for x in _json.loads((common.VERIF / 'harness/c02_rate_ref.json').read_text())}
+        rc, err = common.run_impl('c01', 'rate_constraint_probe', {'mode': 'nrt'}, timeout=1800)
+        if rc is None:
+            self.notes.append('rate-constraint probe failed: ' + err[-300:])
         else:
-            self._srfirst_probe = len(sr)
-            for name, ctor, status in sr:
-                if status == 'compiled' and ctor in srref.get(name, []):
-                    other = 'audio' if ctor == 'kr' else 'control'
-                    out.append({'what': f'{name}.{ctor}(<{other}-rate signal>): the first input must run at the unit\'s own rate; '
-                                        'the graph was compiled to bytes instead of rejected',
-                                'signature': f'c02:first-input-rate-accepted:{name}', 'case': {'class': name, 'ctor': ctor}})
+            self._srfirst_probe = len(rc)
+            for row in rc:
+                name, ctor, k, status = row[:4]
+                if status == 'compiled' and (name, ctor, k) in rref:
+                    other = 'control' if ctor == 'ar' else 'audio'
+                    out.append({'what': f'{name}.{ctor}(…) with a {other}-rate signal as argument {k}: this input must run at the '
+                                        'unit\'s rate; the graph was compiled to bytes instead of rejected',
+                                'signature': f'c02:input-rate-accepted:{name}', 'case': {'class': name, 'ctor': ctor, 'arg': k}})
         for si, (sig, r) in enumerate(zip(sigs, res)):
             if 'error' in r:
                 out.append({'what': f'definition with parameters {sig} not built/read: {r["error"]}',
@@ -153,6 +155,8 @@ class Check(c01.Check):
                     if got != [i0, rn, wv]:
                         problem = f'reader recovers {name} as {got}, expected {[i0, rn, wv]}'
                         break
+            if not problem and r.get('has_gate') != any(name == 'gate' for name, _, _ in sig):
+                problem = f'gate flag read back as {r.get("has_gate")}'
             if not problem and r.get('out_start') != [bus.get(str(si), '0')]:
                 problem = (f'output unit writes to bus {bus.get(str(si), "0")!r} (a parameter name or a literal number); the reader '
                            f'recovers starting channel {r.get("out_start")}')
